@@ -484,10 +484,10 @@ def drive(check, tier, seed, budget_s=None, workers=None, log=print):
 
     # 1. fixed plans: regressions of fixed findings and reproductions of open findings
     fixed_agg = Agg()
-    for name, plan in check.fixed_plans(tier):
-        out = check.execute(plan)
-        fixed_agg.add(-1000000 - len(fixed_agg.stats), plan, out)
-        fixed_agg.runs  # counted
+    for fi, item in enumerate(check.fixed_plans(tier)):
+        name, plan = item[0], item[1]
+        out = check.execute(plan, forced=(item[2] if len(item) > 2 else None))
+        fixed_agg.add(-1000000 - fi, plan, out)
         if out.violation is not None:
             violations.append((('fixed:' + name), plan, out.decisions, out.violation))
 
